@@ -126,4 +126,66 @@ AnySepFlag(f) ==
     \/ f.exponent_internal_digit_separator \/ f.exponent_leading_digit_separator
     \/ f.exponent_trailing_digit_separator \/ f.exponent_consecutive_digit_separator
     \/ f.special_digit_separator
+(***************************************************************************)
+(* Validity of a format as documented (C18): supported radices for the      *)
+(* enabled features; digit separator / base prefix / base suffix are ASCII, *)
+(* not digits of the larger of mantissa and exponent radix, not signs, and   *)
+(* pairwise distinct; no contradictory flag pairs; a consecutive-separator   *)
+(* flag needs a position flag in the same component.                        *)
+(* feat = [format, pow2, radix] (booleans).  Result "valid" | "invalid" |    *)
+(* "unspecified" (an ASCII control character: the property says "ASCII",     *)
+(* the code means printable ASCII -- not judged).                           *)
+(***************************************************************************)
+IsPrintAscii(c) == (c >= 9 /\ c <= 13) \/ (c >= 32 /\ c < 127)
+CtlGap(c) == c # 0 /\ IsAscii(c) /\ ~IsPrintAscii(c)
+MaxI(a, b) == IF a > b THEN a ELSE b
+ControlRadixOf(f) == MaxI(Radix(f), ExponentRadix(f))
+ValidRadixFor(r, feat) == IF feat.radix THEN r >= 2 /\ r <= 36
+                          ELSE IF feat.pow2 THEN r \in {2, 4, 8, 10, 16, 32} ELSE r = 10
+ControlOk(f, c) == IsPrintAscii(c) /\ ~IsDigit(c, ControlRadixOf(f)) /\ c # CPlus /\ c # CMinus
+OptControlOk(f, c) == c = 0 \/ ControlOk(f, c)
+
+ConsecutiveOk(fl) == fl.C => (fl.I \/ fl.L \/ fl.T)
+
+FormatValidity(f, feat) ==
+    LET sep == f.digit_separator  pre == f.base_prefix  suf == f.base_suffix
+        gap == CtlGap(sep) \/ CtlGap(pre) \/ CtlGap(suf)
+        radixOk == ValidRadixFor(Radix(f), feat) /\ ValidRadixFor(ExponentBase(f), feat) /\ ValidRadixFor(ExponentRadix(f), feat)
+        sepOk == IF feat.format THEN OptControlOk(f, sep) ELSE sep = 0
+        preOk == IF feat.format /\ feat.pow2 THEN OptControlOk(f, pre) ELSE pre = 0
+        sufOk == IF feat.format /\ feat.pow2 THEN OptControlOk(f, suf) ELSE suf = 0
+        distinct == /\ (sep # 0 /\ pre # 0 => sep # pre) /\ (sep # 0 /\ suf # 0 => sep # suf)
+                    /\ (pre # 0 /\ suf # 0 => pre # suf)
+        flagsOk == /\ ~(f.no_exponent_notation /\ f.required_exponent_notation)
+                   /\ ~(f.no_positive_mantissa_sign /\ f.required_mantissa_sign)
+                   /\ ~(f.no_positive_exponent_sign /\ f.required_exponent_sign)
+                   /\ ~(f.no_special /\ f.case_sensitive_special)
+                   /\ ~(f.no_special /\ f.special_digit_separator)
+                   /\ ConsecutiveOk(IntSepFlags(f)) /\ ConsecutiveOk(FracSepFlags(f)) /\ ConsecutiveOk(ExpSepFlags(f))
+    IN  IF ~radixOk THEN "invalid"
+        ELSE IF gap THEN "unspecified"
+        ELSE IF sepOk /\ preOk /\ sufOk /\ distinct /\ flagsOk THEN "valid" ELSE "invalid"
+
+(* punctuation of the run-time options against the format *)
+OptionsPunctuationValidity(f, exp, point) ==
+    IF CtlGap(exp) \/ CtlGap(point) THEN "unspecified"
+    ELSE IF /\ exp # 0 /\ point # 0 /\ ControlOk(f, exp) /\ ControlOk(f, point) /\ exp # point
+            /\ f.digit_separator \notin {exp, point} /\ f.base_prefix \notin {exp, point} /\ f.base_suffix \notin {exp, point}
+         THEN "valid" ELSE "invalid"
+
+(* the separator-free counterpart of a format *)
+NoSep(f) == [k \in DOMAIN f |->
+               IF k = "digit_separator" THEN 0
+               ELSE IF k \in {"integer_internal_digit_separator", "fraction_internal_digit_separator",
+                              "exponent_internal_digit_separator", "integer_leading_digit_separator",
+                              "fraction_leading_digit_separator", "exponent_leading_digit_separator",
+                              "integer_trailing_digit_separator", "fraction_trailing_digit_separator",
+                              "exponent_trailing_digit_separator", "integer_consecutive_digit_separator",
+                              "fraction_consecutive_digit_separator", "exponent_consecutive_digit_separator",
+                              "special_digit_separator"} THEN FALSE
+               ELSE f[k]]
+
+
+RECURSIVE ContainsByte(_, _, _)
+ContainsByte(s, c, i) == IF i > Len(s) THEN FALSE ELSE IF s[i] = c THEN TRUE ELSE ContainsByte(s, c, i + 1)
 =============================================================================
